@@ -150,12 +150,14 @@ package fs
 //@ func copier.include
 //@   property C16
 //@   requires c != nil
+//@   effects MatchRes
 //@   ensures nomatcher: c.includePatternMatcher == nil ==> result0 && result2 == nil
 //@   ensures err: result2 != nil ==> !result0
 
 //@ func copier.exclude
 //@   property C16
 //@   requires c != nil
+//@   effects MatchRes
 //@   ensures nomatcher: c.excludePatternMatcher == nil ==> !result0 && result2 == nil
 //@   ensures err: result2 != nil ==> !result0
 
